@@ -5,6 +5,7 @@ Exit codes of ./check: 0 = property held on everything explored (KNOWN-FINDING l
 1 = at least one `VIOLATION property=<id> replay=<path>` line was printed,
 2 = tool error / timeout (never a VIOLATION line).
 """
+import glob
 import hashlib
 import json
 import os
@@ -231,6 +232,28 @@ def tlc(ctx, module, cfg=None, workers=8, timeout=900, simulate=None, depth=None
     """Run TLC on spec/<module>.tla with spec/<cfg>.cfg. Returns dict:
     ok, states, distinct, depth, errors, cases {tag: [json...]}, wall_s, cmd, coverage {action: count}"""
     cfg = cfg or module
+    # exhaustive runs are a function of the specification text alone: reuse the parsed result of an identical earlier run
+    # (same module, config, options and the same bytes in every spec/*.tla + the .cfg); never used for simulation or traces
+    cache_file = None
+    if not simulate and not env_extra and not coverage and os.environ.get("VERIF_NO_TLC_CACHE") != "1":
+        h = hashlib.sha256()
+        for f in sorted(glob.glob(os.path.join(SPEC, "*.tla"))) + [os.path.join(SPEC, cfg + ".cfg")]:
+            h.update(f.encode())
+            h.update(open(f, "rb").read())
+        h.update(json.dumps([module, cfg, list(extra), list(want_tags), java_opts]).encode())
+        cache_dir = os.path.join(VERIF, "work", "tlc_cache")
+        os.makedirs(cache_dir, exist_ok=True)
+        cache_file = os.path.join(cache_dir, h.hexdigest()[:32] + ".json")
+        if os.path.exists(cache_file):
+            try:
+                res = json.load(open(cache_file))
+                res["cached"] = True
+                ctx.tlc_runs.append({k: res[k] for k in ("module", "cfg", "states", "distinct", "depth", "wall_s", "ok", "cmd")} | {"cached": True})
+                log(f"[tlc] {cfg}: {res['states']} states, {res['distinct']} distinct, "
+                    f"{sum(len(v) for v in res['cases'].values())} cases (cached result of an identical run, {res['wall_s']}s)")
+                return res
+            except (ValueError, KeyError):
+                pass
     meta = os.path.join(ctx.work, "tlc_" + cfg + "_" + str(os.getpid()))
     cmd = ["java", "-XX:+UseParallelGC"]
     if java_opts:
@@ -299,6 +322,11 @@ def tlc(ctx, module, cfg=None, workers=8, timeout=900, simulate=None, depth=None
     ctx.tlc_runs.append({k: res[k] for k in ("module", "cfg", "states", "distinct", "depth", "wall_s", "ok", "cmd")})
     log(f"[tlc] {cfg}: {res['states']} states, {res['distinct']} distinct, "
         f"{sum(len(v) for v in res['cases'].values())} cases, {wall:.1f}s, ok={res['ok']}")
+    if cache_file and res["ok"]:
+        tmp = cache_file + f".{os.getpid()}.tmp"
+        with open(tmp, "w") as fh:
+            json.dump(res, fh)
+        os.replace(tmp, cache_file)
     return res
 
 
